@@ -93,6 +93,31 @@ def specIterHist (abs : List Nat) (ops : List Char) : List String :=
 def modelIterHist (getU : Nat → M Nat) (n : Nat) (ops : List Char) : List String :=
   (Iter.run getU { i := 0, e := n } (opsOf ops)).map Out.render
 
+/-- terminal consuming calls at the end of a history (`#` count(), `$` last(), `%` fold, `^` rev().fold): the
+    crate overrides none of them, so they are the provided methods of the standard library — repeated `next`
+    (`next_back`) until `None`.  `pre` is the history before the terminal letter; the answer is computed by
+    running `pre` followed by `fuel` more single steps. -/
+def terminalOut (runOps : List Iter.IterOp → List Out) (pre : List Iter.IterOp) (c : Char) (fuel : Nat) : String :=
+  let stepOp : Iter.IterOp := if c == '^' then .nextBack else .next
+  let outs := (runOps (pre ++ List.replicate fuel stepOp)).drop pre.length
+  let rec go : List Out → List Nat → (List Nat × Option Fault)
+    | [], acc => (acc.reverse, none)
+    | .some v :: rest, acc => go rest (v :: acc)
+    | .fault e :: _, acc => (acc.reverse, some e)
+    | _ :: _, acc => (acc.reverse, none)
+  match go outs [] with
+  | (_, some e) => "F:" ++ e.tag
+  | (vs, none) =>
+    if c == '#' then s!"V:{vs.length}"
+    else if c == '$' then (match vs.getLast? with | some v => s!"S:{v}" | none => "N")
+    else listS vs
+
+/-- split a history at its first terminal letter -/
+def splitTerminal (cs : List Char) : List Char × Option Char :=
+  match cs.span (fun c => !("#$%^".toList.contains c)) with
+  | (pre, c :: _) => (pre, some c)
+  | (pre, []) => (pre, none)
+
 /-- history letters of the one-ended iterators: `n` next, `c` count, `a` last, `t..z` nth -/
 def fwdOpsOf (cs : List Char) : List Iter.FwdOp :=
   cs.map (fun c =>
@@ -109,6 +134,13 @@ def fwdHist (getO : Nat → M (Option Nat)) (abs : List Nat) (hist : String) : S
     | [], _, _, ms, ss => (ms.reverse, ss.reverse)
     | c :: cs, i, rem, ms, ss =>
       if c == 'h' then go cs i rem (s!"V:{rem.length}" :: ms) (s!"V:{rem.length}" :: ss)
+      else if "#$%".toList.contains c then
+        -- terminal consuming call (provided method: repeated `next`)
+        let m := terminalOut (fun o => (Iter.fwdRun getO abs.length i (o.map (fun _ => Iter.FwdOp.next)))) [] c (rem.length + 2)
+        let sp := if c == '#' then s!"V:{rem.length}"
+          else if c == '$' then (match rem.getLast? with | some v => s!"S:{v}" | none => "N")
+          else listS rem
+        ((m :: ms).reverse, (sp :: ss).reverse)
       else
         match fwdOpsOf [c] with
         | [op] =>
@@ -500,8 +532,14 @@ def handleQ (st : St) (k : Nat) (q : String) (args : List String) : String :=
     | "select_unchecked" => both (.ofVal (QWTree.selectUnchecked c t (a 0) (a 1))) s!"V:{(Spec.select (a 0) (a 1) abs).getD 0}"
     | "iter" | "iter_ref" | "into_iter" => collectIter (fun i => QWTree.get c t i) (abs.length + 2) ++ "|" ++ listS abs
     | "iterhist" =>
-      let ops := (args.getD 0 "").toList
-      " ".intercalate (modelIterHist (QWTree.getUnchecked c t) t.n ops) ++ "|" ++ " ".intercalate (specIterHist abs ops)
+      let (pre, term) := splitTerminal (args.getD 0 "").toList
+      let mt := match term with
+        | some ch => [terminalOut (Iter.run (QWTree.getUnchecked c t) { i := 0, e := t.n }) (opsOf pre) ch (t.n + 2)]
+        | none => []
+      let st := match term with
+        | some ch => [terminalOut (Iter.specRun abs) (opsOf pre) ch (abs.length + 2)]
+        | none => []
+      " ".intercalate (modelIterHist (QWTree.getUnchecked c t) t.n pre ++ mt) ++ "|" ++ " ".intercalate (specIterHist abs pre ++ st)
     | _ => "bad-op"
   | .hqwt c t abs _ =>
     match q with
@@ -518,8 +556,14 @@ def handleQ (st : St) (k : Nat) (q : String) (args : List String) : String :=
     | "select_unchecked" => both (.ofVal (Huff.selectUnchecked c t (a 0) (a 1))) s!"V:{(Spec.select (a 0) (a 1) abs).getD 0}"
     | "iter" | "iter_ref" | "into_iter" => collectIter (fun i => Huff.get c t i) (abs.length + 2) ++ "|" ++ listS abs
     | "iterhist" =>
-      let ops := (args.getD 0 "").toList
-      " ".intercalate (modelIterHist (Huff.getUnchecked c t) t.n ops) ++ "|" ++ " ".intercalate (specIterHist abs ops)
+      let (pre, term) := splitTerminal (args.getD 0 "").toList
+      let mt := match term with
+        | some ch => [terminalOut (Iter.run (Huff.getUnchecked c t) { i := 0, e := t.n }) (opsOf pre) ch (t.n + 2)]
+        | none => []
+      let st := match term with
+        | some ch => [terminalOut (Iter.specRun abs) (opsOf pre) ch (abs.length + 2)]
+        | none => []
+      " ".intercalate (modelIterHist (Huff.getUnchecked c t) t.n pre ++ mt) ++ "|" ++ " ".intercalate (specIterHist abs pre ++ st)
     | _ => "bad-op"
   | .wt c comp t abs _ =>
     let sr := if comp then specRankH abs else specRankU abs
@@ -537,8 +581,14 @@ def handleQ (st : St) (k : Nat) (q : String) (args : List String) : String :=
     | "select_unchecked" => both (.ofVal (BinWT.selectUnchecked c comp t (a 0) (a 1))) s!"V:{(Spec.select (a 0) (a 1) abs).getD 0}"
     | "iter" | "iter_ref" | "into_iter" => collectIter (fun i => BinWT.get c comp t i) (abs.length + 2) ++ "|" ++ listS abs
     | "iterhist" =>
-      let ops := (args.getD 0 "").toList
-      " ".intercalate (modelIterHist (BinWT.getUnchecked c comp t) t.n ops) ++ "|" ++ " ".intercalate (specIterHist abs ops)
+      let (pre, term) := splitTerminal (args.getD 0 "").toList
+      let mt := match term with
+        | some ch => [terminalOut (Iter.run (BinWT.getUnchecked c comp t) { i := 0, e := t.n }) (opsOf pre) ch (t.n + 2)]
+        | none => []
+      let st := match term with
+        | some ch => [terminalOut (Iter.specRun abs) (opsOf pre) ch (abs.length + 2)]
+        | none => []
+      " ".intercalate (modelIterHist (BinWT.getUnchecked c comp t) t.n pre ++ mt) ++ "|" ++ " ".intercalate (specIterHist abs pre ++ st)
     | _ => "bad-op"
 
 def slotVal (st : St) (k : Nat) : Option Codec.Val :=
